@@ -1,7 +1,7 @@
 (* C27 - Objects keep their class and polymorphic queries are exact.
    Property theorems only (closed by `exact <lemma>`); quantified over all schemas that EntityMeta accepts (`valid`: bases are
-   earlier classes, the multiple-inheritance graph is diamond-like), any number of trees, any discriminator values that are
-   pairwise different inside a tree (`discr_inj`: the exact complement of the recorded finding). *)
+   earlier classes, the multiple-inheritance graph is diamond-like, and -- since fix d645930 -- no discriminator value is used
+   twice inside a tree), any number of trees, any discriminator values. *)
 From Coq Require Import ZArith List Bool Lia.
 Require Import PonyV.Base.PyBase PonyV.Model.C27Inherit PonyV.Proofs.C27Proofs.
 #[local] Open Scope nat_scope.
@@ -18,35 +18,43 @@ Theorem C27_root : forall s, valid s = true -> forall e c, anc s e c -> root_of 
 Proof. exact anc_root. Qed.
 Print Assumptions C27_root.
 
+(* every accepted schema has pairwise different discriminator values inside each tree (the definition-time check) *)
+Theorem C27_accepted_schemas_have_distinct_discriminators : forall s, valid s = true -> discr_inj s.
+Proof. exact valid_inj. Qed.
+Print Assumptions C27_accepted_schemas_have_distinct_discriminators.
+Theorem C27_duplicate_discriminator_rejected : valid s_dup = false.
+Proof. exact dup_rejected. Qed.
+Print Assumptions C27_duplicate_discriminator_rejected.
+
 (* a row of the tree's table, created as class k, is selected by the discriminator criteria of a query over e
    iff k is e or one of its subclasses *)
-Theorem C27_criteria_except_known : forall s, valid s = true -> discr_inj s -> forall e k,
+Theorem C27_criteria : forall s, valid s = true -> forall e k,
   e < length s -> k < length s -> root_of s k = root_of s e ->
   (selected s e (discr_of s k) = true <-> In k (e :: subclasses s e)).
-Proof. exact criteria_exact_list. Qed.
-Print Assumptions C27_criteria_except_known.
+Proof. exact criteria_valid. Qed.
+Print Assumptions C27_criteria.
 
 (* the SQL built by FuncIsinstanceMonad.call, evaluated on a row created as class k (k in the family of the queried entity),
    is Python's isinstance(obj, (c1, .., cn)) -- classes of other trees included *)
-Theorem C27_isinstance_except_known : forall s, valid s = true -> discr_inj s -> forall e cs k,
+Theorem C27_isinstance : forall s, valid s = true -> forall e cs k,
   e < length s -> family s e k ->
   isinst_eval (isinstance_sql s e cs) (discr_of s k) = py_isinstance s k cs.
-Proof. exact isinstance_exact. Qed.
-Print Assumptions C27_isinstance_except_known.
+Proof. exact isinstance_valid. Qed.
+Print Assumptions C27_isinstance.
 
 (* _parse_row_ picks the creation class from the stored discriminator, through whichever entity of the family the row is read;
    an object already in the identity map under an ancestor class is refined to it *)
-Theorem C27_reload_except_known : forall s, valid s = true -> discr_inj s -> forall e k,
+Theorem C27_reload : forall s, valid s = true -> forall e k,
   e < length s -> family s e k -> reload_class s e (discr_of s k) = Some k.
-Proof. exact reload_exact. Qed.
-Print Assumptions C27_reload_except_known.
+Proof. exact reload_valid. Qed.
+Print Assumptions C27_reload.
 Theorem C27_refine : forall s, valid s = true -> forall cur real, family s cur real -> refine s cur real = Some real.
 Proof. exact refine_exact. Qed.
 Print Assumptions C27_refine.
 
-(* non-vacuity: a two-tree schema with a diamond satisfies the hypotheses; sample values *)
+(* non-vacuity: a two-tree schema with a diamond is accepted; sample values *)
 Example C27_nonvacuous :
-  valid s_diamond = true /\ discr_injb s_diamond = true /\
+  valid s_diamond = true /\
   nset_eqb (subclasses s_diamond 0) [1; 2; 3; 4] = true /\ nset_eqb (all_bases s_diamond 4) [0; 1; 2; 3] = true /\
   isinstance_sql s_diamond 1 [2; 6] = IsIn [30%Z; 40%Z] /\ reload_class s_diamond 1 40 = Some 4.
 Proof. repeat split; reflexivity. Qed.
